@@ -511,6 +511,33 @@ def c20_stages(ctx):
     lib.lifecycle_stage(ctx)
 
 
+# ------------------------------------------------------------------------ C02
+def c02_slices(tier):
+    th = tier == "thorough"
+    sl = [dict(s, name="C01_" + s["name"]) for s in c01_slices(tier)]
+    # Toy<257>: 2-byte scalars; identifiers 1 < 255 < 256 numerically but not bytewise in little-endian
+    sl.append(dict(name="E_q257_byte_order", module="C01", invariants=C01_INV, consts=consts(
+        257, Shapes="{<<3,2>>, <<3,3>>}", IdSets="{{1,255,256}, {2,256,3}}", KeyChoices="{200}", CoeffChoices="{256}",
+        RandChoices="{1}", Msgs=MSG2, MaxExtra="1", DomH3="{255,256}", DomH1="{3,256}", DomH2="{100}", EMIT="TRUE")))
+    # four and five signers, empty / multi-block messages
+    sl.append(dict(name="F_s5_long_msg", module="C01", invariants=C01_INV, consts=consts(
+        13, Shapes="{<<5,4>>}", IdSets="{{1,2,3,4,5}, {12,3,6,8,10}}", KeyChoices="{7}", CoeffChoices="{3}",
+        RandChoices="{1}", Msgs="{<<>>, [k \\in 1..300 |-> k % 251]}", MaxExtra="1", DomH3="{4,9}", DomH1="{3}",
+        DomH2="{5}", EMIT="TRUE")))
+    return sl
+
+
+def c02_stages(ctx):
+    import lib
+    lib.spy_stage(ctx)
+    lib.interop_stage(ctx)
+
+
+def c15_stages(ctx):
+    import lib
+    lib.spy_stage(ctx, n_quick=40, n_thorough=300)
+
+
 PROPS = {
     "C01": dict(slices=c01_slices, fatal=C01_FATAL, traces=True, level="model_checking",
                 rule="TLC enumerates every behaviour of the C01 schedule within each slice's constants; "
@@ -562,7 +589,7 @@ PROPS = {
                      "polynomials in the value slice, every blinding value in slice B; refused helper lists; replayed on the real library",
                 assumptions=["TLC 1.8.0 and the CommunityModules", "the toy ciphersuite and interpreter in /verif/harness",
                              "the toy-to-real argument of DESIGN 6.2"]),
-    "C15": dict(slices=c15_slices, fatal=C15_FATAL, traces=True, level="model_checking",
+    "C15": dict(slices=c15_slices, fatal=C15_FATAL, traces=True, stages=[c15_stages], level="model_checking",
                 rule="sequences of commit/preprocess calls under constant, repeating and varying scripted sources; every share "
                      "and every H3 answer in the value slice; the replay requires the exact RNG consumption and H3 preimages",
                 assumptions=["TLC 1.8.0 and the CommunityModules", "the toy ciphersuite and interpreter in /verif/harness",
@@ -633,6 +660,19 @@ PROPS = {
                            "state (DESIGN 6.3): the lifecycle model is a clause table, the weight is carried by the observer; the harness's "
                            "dev profile (opt-level 1, dependencies 2) is what is observed",
                 assumptions=["the allocator wrapper sees every deallocation of the process", "SigningShare and Nonce are Copy: no wipe on drop, as documented in the book"]),
+    "C02": dict(slices=c02_slices, fatal={"*:*"}, traces=True, stages=[c02_stages], level="model_checking",
+                rule="the specification transcribes RFC 9591's protocol layer (nonce derivation, list encoding and order, the "
+                     "preimage layouts, interpolation, share and aggregate equations, signature and identifier encoding) "
+                     "independently of the code; toy: every value and every hash preimage of every behaviour is compared bit for "
+                     "bit (incl. a field with 2-byte scalars where numeric and byte order of identifiers differ, 4-5 signers, empty "
+                     "and 300-byte messages); real arithmetic: Spy<C> traces checked for the byte structure of every preimage; all "
+                     "65536 u16 identifiers on three toy fields and sampled ones on the real suites; single-signer interop with "
+                     "ed25519-dalek and libsecp256k1 in both directions",
+                level_note="partly decidable (DESIGN 6.3): TLC cannot evaluate SHA-2/SHAKE, hash-to-field or curve arithmetic, so the "
+                           "per-suite primitives are covered only by the existing RFC vectors, the two independent verifiers and the "
+                           "canonical-encoding laws of C12; no second reference implementation is added",
+                assumptions=["TLC 1.8.0 and the CommunityModules", "the toy ciphersuite and interpreter in /verif/harness",
+                             "the toy-to-real argument of DESIGN 6.2"]),
     "C04": dict(slices=c04_slices, fatal=C04_FATAL, level="model_checking", traces=True,
                 rule="TLC enumerates every filling of the share slots (honest / off by d / negated / zero / another "
                      "signer's / another session's share) for every signer subset within the slice constants and runs "
